@@ -235,6 +235,11 @@ class _Frame:
 
 
 def convert(dtname, text):
+    if dtname == "zcv.dtalt.evenint":
+        v = refdt.parse_int(text)
+        if v is None or v % 2 == 0:
+            return ("err",)
+        return ("ok", -v)
     if dtname.startswith("zcv.dt."):
         fn = dtname.split(".")[-1]
         if fn == "reject":
@@ -266,9 +271,9 @@ def tag_value(v):
 def apply_section_dt(dt, value):
     if dt in (None, "null"):
         return value
-    if dt == "zcv.dt.wrap":
+    if dt in ("zcv.dt.wrap", "zcv.dtalt.wrap2"):
         return {"W": value}
-    if dt == "zcv.dt.wrap2":
+    if dt in ("zcv.dt.wrap2", "zcv.dtalt.wrap"):
         return {"W2": value}
     if dt == "zcv.dt.counting_section":
         return value
